@@ -583,3 +583,67 @@ def gen_long_general(rnd, cff2, nseg, numeric="int", p0=0.2):
     if not cff2:
         prog.append("endchar")
     return prog
+
+
+# ---------------------------------------------------------------- subroutine-bias boundary fonts
+def gen_bias_font(rnd, cff2, gsize, lsize, gused=None, lused=None, nglyphs=24):
+    """A subroutinised font whose global / local subroutine INDEX holds exactly `gsize` / `lsize`
+    entries (TN5177 4.7: bias 107 below 1240 subrs, 1131 below 33900, else 32768), of which exactly
+    `gused` / `lused` are reachable from the glyphs (None = all) - so that pruning the unused ones lands
+    on a chosen count.  Every subroutine draws one line whose vector identifies its index; some used
+    subroutines are reached only through another subroutine (global->global, global->local,
+    local->local), so renumbering inside subroutine bodies matters too.  Call operands are computed
+    from the specification's bias.  -> (programs, local, glob) as token lists."""
+    ret = [] if cff2 else ["return"]
+
+    def vec(i, salt):
+        dx = ((i % 97) + 1) * (1 if i % 2 == 0 else -1)
+        dy = (((i // 97) + salt) % 89 + 1) * (1 if (i // 2) % 2 == 0 else -1)
+        return [dx, dy, "rlineto"]
+
+    gb, lb = _bias(gsize), _bias(lsize)
+    gset = sorted(rnd.sample(range(gsize), gused)) if gused is not None else list(range(gsize))
+    lset = sorted(rnd.sample(range(lsize), lused)) if lused is not None else list(range(lsize))
+    # always exercise the ends of the index range
+    glob = [vec(i, 0) for i in range(gsize)]
+    local = [vec(i, 7) for i in range(lsize)]
+
+    def nest(callers, targets, pool, op, bias):
+        for t in targets:
+            if not callers:
+                break
+            c = rnd.choice(callers)
+            pool[c] = pool[c] + [t - bias, op]
+
+    def split(used, frac):
+        if len(used) < 4:
+            return list(used), []
+        k = max(1, int(len(used) * frac))
+        nested = set(rnd.sample(used, k))
+        return [u for u in used if u not in nested], sorted(nested)
+
+    gdirect, gnested = split(gset, 0.05)
+    ldirect, lnested = split(lset, 0.05)
+    half = len(lnested) // 2
+    nest(gdirect, gnested, glob, "callgsubr", gb)              # global -> global
+    nest(ldirect, lnested[:half], local, "callsubr", lb)       # local -> local
+    nest(gdirect[:50], lnested[half:], glob, "callsubr", lb)   # global -> local
+    glob = [b + ret for b in glob]
+    local = [b + ret for b in local]
+    calls = [(g - gb, "callgsubr") for g in gdirect] + [(l - lb, "callsubr") for l in ldirect]
+    rnd.shuffle(calls)
+    per = -(-len(calls) // nglyphs) if calls else 0
+    progs = []
+    for j in range(nglyphs):
+        p = []
+        if not cff2 and j % 3 == 0:
+            p.append(rnd.choice([-20, 100, 108, -108, 1131]))
+        if j % 2 == 0:
+            p += [10, 20, 200, 30, "hstem", 40, 50, "vstem"]
+        p += [rnd.randint(-50, 50), rnd.randint(-50, 50), "rmoveto"]
+        for operand, op in calls[j * per:(j + 1) * per]:
+            p += [operand, op]
+        if not cff2:
+            p.append("endchar")
+        progs.append(p)
+    return progs, local, glob
